@@ -31,6 +31,15 @@ CHECKS['C09'] = dict(technique='offline reference-model checker over recorded AP
 CHECKS['C10'] = dict(technique='exhaustive offline checker of group-line averages vs member lines (public calls only)',
              text='For Z 1..120 every group/doublet macro and Siegbahn alias is compared with the stated average of its member lines computed from the public single-line calls (rate- or cross-section-weighted, plain-mean fallback, error when no member has an energy), range containment, group rates and alias identities. Exhaustive.',
              note='Trusted: member lists derived from public macro names; KB accepts the two readings of DESIGN.md for the KO/KP group rates.', ref='2 C10')
+CHECKS['C08'] = dict(technique='offline reference-model checker over recorded API calls (cascade recursion rebuilt from public primitives), Kissel table regenerated at check time',
+             text='With the Kissel table regenerated from data/kissel, the 5 variants x {cm2/g, barn} of the shell and line XRF functions and the exported vacancy helpers are compared for all Z, 9 shells, all line macros and energies bracketing every edge with a numpy recursion built from the library\'s own primitives (Auger multiplicities from macro names), plus the ordering/alias/unit relations; as shipped (table emptied) every call must fail cleanly.',
+             note='Trusted: xv/kissel_regen.py port of kissel.pro (both sides read the same regenerated file), numpy reference in xv/oracles/c08.py.', ref='2 C08')
+CHECKS['C11'] = dict(technique='exhaustive offline value checker of Auger yields/rates vs independently parsed raw tables',
+             text='AugerYield over all Z x shells and AugerRate over all Z x 996 macros (plus margins) are compared with 1 - yield - sum(CK) and raw/(total net of Coster-Kronig-type transitions) computed from an independent parse of auger_rates.dat, transition types decided from macro names. Exhaustive.',
+             note='Trusted: refdata.auger_raw, macro probe; tolerance = forward error bound of the 11-digit tables.', ref='2 C11')
+CHECKS['C15'] = dict(technique='exhaustive catalogue cross-checker through the public API (ctypes in forked children, plus ASan executor)',
+             text='Every element symbol, NIST compound, radionuclide and crystal entry is fetched by name, by index, by published index macro and through the list; equality, uniqueness, bijections, per-entry invariants and deep-copy independence (mutate one copy, free in both orders, look up again) are checked for the complete catalogues.',
+             note='Trusted: ctypes struct layouts in xv/xl.py; macro values from the compiled probe.', ref='2 C15')
 NOT_APPLICABLE = [
  dict(property_id='C20', reason='Fortran/Pascal/Cython/IDL/SWIG interface files cannot be compiled, loaded or executed in this sandbox (no gfortran, fpc, Cython, swig, IDL), so there is no execution for a runtime monitor to observe; comparing their text is static analysis, a different technique. The executable slices (Java constants, C++ header, exported symbols) are monitored as by-products of C19/C18/C03.'),
 ]
